@@ -21,6 +21,7 @@ EXPLANATION = (
     "holds the box of every observation of the scene in order, and hand share[i] to the observation with index i."
     " (R15.6) the polygon a box contributes is its rectangle rotated by +angle about its centre with vertices in boundary order, and area() in the denominator is that rectangle's area (exact formulas by rational-function normal form, evaluated where the code is straight-line arithmetic; a `match x % n` on a signed remainder with a wildcard arm for the last residue is reported)."
     ' R15.1 also requires that every way out of the per-box stage derives from the running region (no containment shortcut that returns a region without subtracting); (R15.7) the epsilon of the share denominator is the public constant EPS = 1e-5.')
+EXPLANATION += ' R15.1 also requires the operands of `difference` to be plain conversions of the boxes (no coordinate rewriting); R15.2 requires that a near pair is recorded under the bounding-circle test alone, whatever container holds the pairs.'
 NOT_DECIDED = ["exactness / robustness of geo::BooleanOps::difference on near-degenerate inputs",
                "the numeric value of the share (only its formula, operand pairing and clamp are decided)",
                "soundness of the pre-filter bound as an inequality (only its wiring is decided)",
@@ -62,7 +63,7 @@ def linear(e):
     return [repr(e)]
 
 
-from lib import elem_key, FOLDS  # noqa: E402
+from lib import E, elem_key, FOLDS  # noqa: E402
 
 
 def element_source(e):
@@ -87,6 +88,33 @@ def whole_input(chain):
             if not (lo.kind == 'const' and str(lo.const.get('v')) == '0' and hi.has_call('len')):
                 bad.append('range')
     return any(p.root == ('param', 1) for p in chain.places()) and not bad
+
+
+CONVERSIONS = ('from', 'into', 'new', 'deref', 'clone', 'borrow', 'as_ref', 'to_owned', 'into_iter', 'collect', 'unwrap',
+               'from_iter', 'into_vec', 'into_boxed_slice', 'box_new', 'to_vec', 'try_from', 'try_into', 'expect', 'iter',
+               'cloned', 'copied', 'once', 'exterior', 'into_inner', 'as_slice', 'unsize', 'from_elem')
+
+
+def reshaped_between(e):
+    """the polygon handed to `difference` is the CONVERSION of the box: on the way from the box to the operand (the spine
+    of first arguments down to the innermost `from`) only conversions occur. A call that rewrites coordinates in
+    between (map_coords with a snapping closure, a simplification, a buffer) subtracts / keeps a different shape from
+    the rectangle of the box. Returns the offending call name or None."""
+    spine = []
+    x = e
+    while isinstance(x, E) and len(spine) < 40:
+        spine.append(x)
+        if x.kind in ('cast', 'call', 'agg') and x.args and isinstance(x.args[0], E):
+            x = x.args[0]
+        else:
+            break
+    froms = [i for i, y in enumerate(spine) if y.kind == 'call' and y.name.rsplit('::', 1)[-1] in ('from', 'into')]
+    if not froms:
+        return None
+    for y in spine[:froms[-1]]:
+        if y.kind == 'call' and y.name.rsplit('::', 1)[-1] not in CONVERSIONS:
+            return y.name.rsplit('::', 1)[-1]
+    return None
 
 
 def subtraction_rule(ctx, R):
@@ -131,6 +159,15 @@ def subtraction_rule(ctx, R):
             if k is None:
                 ok_min = False
             own_keys.add(k)
+        for a in list(alts) + [other]:
+            if a.kind == 'call' and a.name.endswith('difference'):
+                continue
+            bad = reshaped_between(a)
+            n += 1
+            ctx.check(bad is None, R, b, 'operand=conversion-of-the-box', repr(a)[:80],
+                      'the polygon given to `difference` is not the plain conversion of the box: `%s` rewrites it on the '
+                      'way (%r) - the share is then computed for a different shape from the rectangle of the box' % (
+                          bad, a), c.ln)
         n += 1
         ctx.check(ok_min and len(own_keys) == 1, R, b, 'minuend=own-region',
                   'minuend alternatives: %s' % [repr(a)[:60] for a in alts],
@@ -167,13 +204,17 @@ def subtraction_rule(ctx, R):
                                 if pure and r_.has_call('from') and all(p_.root == ('param', 2) for p_ in r_.places()):
                                     is_poly = True
                                     ochain = och
-        ctx.check(ok_ is not None and ok_ not in own_keys and is_poly, R, b,
+        unrecognised = ochain is None
+        if unrecognised:
+            ctx.note(R, 'the box whose polygon is subtracted (%r) is not an element of an iteration this rule recognises (an '
+                     'index taken from another container): subtrahend clauses not evaluated (no alarm)' % (other,))
+        ctx.check(unrecognised or (ok_ is not None and ok_ not in own_keys and is_poly), R, b,
                   'subtrahend=other-box', 'subtrahend from %s' % ok_,
                   'the polygon that is subtracted (%r) is not the polygon of ANOTHER box of the set (the own box '
                   'comes from %s)' % (other, sorted(map(str, own_keys))), c.ln)
         # the other boxes range over the input slice of the function
         n += 1
-        ctx.check(ochain is not None and any(p.root == ('param', 1) for p in ochain.places()), R, b,
+        ctx.check(unrecognised or (ochain is not None and any(p.root == ('param', 1) for p in ochain.places())), R, b,
                   'subtrahend-from-the-input-set', 'subtrahend ranges over the boxes parameter',
                   'the subtracted polygons do not come from the boxes handed to exclusively_owned_areas (%r over %r)' % (
                       other, ochain), c.ln)
@@ -276,10 +317,28 @@ def pair_filter_rule(ctx, R):
             v = eb.arg(c, 1).strip()
             if v.kind == 'agg' and v.name == 'tuple' and len(v.args) == 2:
                 lookups.append((b, c, v))
+    # whatever the mechanism (a set of pairs, neighbour lists): where a pair is recorded under the bounding-circle test, that
+    # test is the ONLY geometric condition - a second rejection test (axis-aligned extents that ignore the angle, a centre
+    # distance of its own) drops pairs of boxes that do overlap, and their overlap is then not subtracted
+    GEOM = {'xc', 'yc', 'aspect', 'height', 'angle', 'width', 'left', 'top'}
+    for b in bodies:
+        for c in b.find_calls('insert', 'push', 'push_back', 'extend', 'entry'):
+            far, extra = [], []
+            for conds in expand_conditions(b, path_conditions(b, c.bb)):
+                f_ = [k for k in conds if k.kind == 'bool' and k.expr.kind == 'call' and k.expr.name.endswith('too_far')]
+                far += f_
+                extra += [k for k in conds if k not in f_ and k.kind == 'bool' and k.expr is not None and k.expr.kind != 'phi'
+                          and any(k.expr.has_field(g_) for g_ in GEOM)]
+            if not far:
+                continue
+            n += 1
+            ctx.check(not extra, R, b, 'near-pair-decided-by-the-bounding-circle-test-alone:%s' % c.name, '',
+                      'a near pair is recorded only if, besides !too_far, %s holds: pairs of overlapping boxes that fail this '
+                      'extra geometric test are not subtracted from each other' % [str(k)[:120] for k in extra][:2], c.ln)
     if not inserts or not lookups:
         ctx.note(R, 'the near-pair pre-filter is not the set-of-index-pairs mechanism of the reference tree: clause not '
                  'evaluated (no alarm)')
-        return 0
+        return n
     ins_keys = set()
     ins_norm = False
     for b, c, v in inserts:
